@@ -8,13 +8,62 @@ TRUST = ("TLC 1.8 and the JVM; the TLA+ specification spec/*.tla (anchored to RF
          "the pure-Python primitive oracle (pinned by published vectors, oracle/selftest.py); the ~2000-line Rust executor, "
          "which contains no HPKE logic; the guarded hooks in /repo (cfg hpke_verif)")
 
+MC = "model_checking"
 CHECKS = {
- "C04": dict(cat="model_checking", tech="TLA+ spec (MC_Seq) model-checked by TLC; every seal transition of the bounded model replayed on the real code through the counter/raw-context hooks, ciphertext body compared with the oracle-evaluated term AEAD(key, base_nonce XOR be64(seq))",
+ "C01": dict(cat=MC, tech="TLA+ spec (Hpke.tla / MC_Setup, MC_Seq) model-checked by TLC; every transition of the matching-pair model replayed on the real code in pattern mode (equality pattern of predicted terms, returned plaintexts, lengths)",
+   text="TLC checks Binding (agreeing parameters => identical key material, through the DH commutativity law), VerbatimDecision, AcceptsOnlySealed, RcvdInOrder, CtLen on the setup model (4 KEMs x 3 KDFs x 3 AEADs x 4 modes). Conformance: every generated transition (setup_s, setup_r, seal and open in both forms, in- and out-of-order delivery of <=3 messages) is one implementation test whose pre-state is re-created through the public API; plus in-order sessions over plaintext/aad sizes straddling the block sizes.",
+   ref="5 (C01)"),
+ "C02": dict(cat=MC, tech="TLA+ spec of RFC 9180 with symbolic byte strings; every transition of the setup model for all 48 suites x 4 modes replayed on the real code in exact mode: each returned byte must equal the oracle's evaluation of the specification's term",
+   text="The specification's terms (labels, suite ids, orderings, length prefixes, DeriveKeyPair, nonce computation - all in TLA+) are evaluated by a pure-Python primitive oracle and compared byte for byte with enc, every ciphertext (both forms), every export and the single-shot outputs; in the receiver direction the encapsulated key and ciphertexts handed to the real receiver are computed by the oracle. The transcription is anchored to RFC 9180 A.1.1, A.1.2, A.1.3, A.2.1, A.3.1 (50 published values reproduced from the spec's own terms on every run).",
+   ref="5 (C02), 4.4"),
+ "C03": dict(cat=MC, tech="TLA+ DHKEM spec (HpkeKem.tla / MC_Kem): spec-level EncapDecapAgree / PkOfSk / GenIsDerive evaluated by TLC, every enumerated call replayed in exact mode against the oracle-evaluated terms",
+   text="derive_keypair over ikm length classes and seeded values, gen_keypair (first Nsk RNG bytes, spare bytes undrawn), sk_to_pk, encap/decap plain and authenticated for all role assignments x 4 KEMs: every returned byte equals the oracle's evaluation of the RFC 9180 term (X25519 private keys up to clamping).",
+   ref="5 (C03)"),
+ "C04": dict(cat=MC, tech="TLA+ spec (MC_Seq) model-checked by TLC; every seal transition of the bounded model replayed on the real code through the counter/raw-context hooks, ciphertext body compared with the oracle-evaluated term AEAD(key, base_nonce XOR be64(seq))",
    text="TLC checks NonceIsXor, NoncesDistinct, ConsecutiveSeqs, AdvanceByOne, DeadAfterLimit, LiveBeforeLimit, Latch, Monotone exhaustively on the counter model (carry-boundary start set incl. 2^64-2, 2^64-1 and the latched state, <=4 seals, both forms). Conformance: each generated seal transition (x 3 AEADs x 4 base-nonce patterns) is one implementation test: result kind, error variant, (seq, overflowed) after the call, buffer identity on refusal and the exact ciphertext body; plus all seal histories from 0 through the public API only.",
    ref="5 (C04), 4.2, 4.5"),
- "C05": dict(cat="model_checking", tech="TLA+ spec with an ideal-AEAD receiver and an adversarial delivery menu, model-checked by TLC; every open transition replayed on the real code (pattern mode), plus random walks of the model from position 0",
+ "C05": dict(cat=MC, tech="TLA+ spec with an ideal-AEAD receiver and an adversarial delivery menu, model-checked by TLC; every open transition replayed on the real code (pattern mode), plus random walks of the model from position 0",
    text="TLC checks AcceptsOnlySealed, VerbatimDecision (completeness: the in-sequence message IS accepted), TamperedRejected, FailureIsStutter, RcvdInOrder, AdvanceByOne, DeadAfterLimit, Latch, Monotone over all interleavings of <=3 seals and <=2-3 adversarial deliveries from the menu (verbatim/replay/future/cross-context, flips, truncations, extensions, substitutions, short, garbage), receiver positions from the carry-boundary set incl. the latched state. Conformance: every open transition is an implementation test (deliveries are byte surgery on the implementation's own ciphertexts), counter state compared after every call.",
    ref="5 (C05), 4.2, 4.5"),
+ "C06": dict(cat=MC, tech="TLA+ spec: TLC enumerates every single-bit flip of ciphertext, tag and aad, every truncation/extension, every substitution as delivery arguments; each case replayed on the real code through all opening interfaces (pattern mode) with positive controls",
+   text="TamperedRejected / VerbatimDecision / AcceptsOnlySealed hold on the model for every enumerated modification; conformance: each case is applied to the implementation's own ciphertext/tag/aad and must give OpenError with unchanged counter, while the unmodified in-sequence message is accepted in the same run; single-shot opening interfaces are covered by the C14 model runs (modified deliveries).",
+   ref="5 (C06)"),
+ "C07": dict(cat=MC, tech="Dolev-Yao style search by TLC over the symbolic key schedule (concrete strings over {00,61}: boundary shifts, empty vs zero byte) for Binding/NoSharedPart; every (sender, perturbed receiver) transition replayed in pattern mode",
+   text="TLC: a sender and a receiver share key material iff their parameters agree, and share none of key/nonce/exporter otherwise (all single-component perturbations + boundary shifts, 4 modes, suites incl. AES-256-GCM vs ChaCha20Poly1305). Conformance: the perturbed receiver must reject the sender's ciphertexts and every export must differ between the two sides (controls: the matching receiver of the same model); byte level: every single bit of 32/65-byte info, psk, psk_id, appended/prepended zero bytes.",
+   ref="5 (C07)"),
+ "C08": dict(cat=MC, tech="TLC checks AuthSound/PskSound on the symbolic DHKEM + key schedule with impostor senders; every transition replayed in pattern mode",
+   text="Impostors (foreign identity pair, honest pkS paired with a foreign private key, non-authenticated mode, wrong PSK incl. every PSK bit) against a receiver expecting pkS / the PSK: ciphertexts rejected, exports differ; the honest sender is accepted in the same model (4 KEMs x {Psk, Auth, AuthPsk}).",
+   ref="5 (C08)"),
+ "C09": dict(cat=MC, tech="decision table in TLA+ (HpkeCodec.tla) enumerated by TLC over adversarial input recipes the oracle constructs and classifies independently; every case replayed (exact result incl. error payload, canonical re-serialisation)",
+   text="3 curves x {public, encapsulated, private key} x every leading byte x {valid, negated, y+1, invalid-curve, twist, (0,0), swapped, x+p and y+p non-canonical encodings of valid points, coordinates = p / all-ones, compressed/hybrid, prefixes/extensions} and scalars {0,1,mid,n-1,n,n+1,n+r,max, P-521 bits 520/521/527}, plus seeded random strings: from_bytes must return exactly the table's value.",
+   ref="5 (C09)"),
+ "C10": dict(cat=MC, tech="TLA+ spec: DH fails exactly for the 14 small-order encodings (literals in HpkeKem.tla); TLC enumerates role x mode x interface and asserts SmallOrderRefused/OnlySmallOrderRefused/NoCtxOnFailure; every transition replayed",
+   text="Each of the 14 encodings as recipient key (sender side), encapsulated key and sender identity key (receiver side) x 4 modes x {setup, single-shot, Kem::encap/decap}: EncapError / DecapError and no context; 5 other raw 32-byte strings (incl. non-canonical) must be accepted.",
+   ref="5 (C10)"),
+ "C11": dict(cat=MC, tech="TLA+ spec: ExportIsPure asserted on every transition by TLC; export transitions replayed in exact mode on hook-built contexts (value, bound) and in pattern mode on real setups of both roles (purity, symmetry, history independence)",
+   text="Exports for exporter-context classes x lengths {0,1,16,Nh-1,Nh,Nh+1,255Nh-1,255Nh,255Nh+1,65535,65536,70000} x 3 KDFs, from every reachable state of the bounded model (before/after seals, opens, refusals, at the latch); export-only suites export the same way and their seal/open panic; thorough sweeps every L in 0..65599.",
+   ref="5 (C11)"),
+ "C12": dict(cat=MC, tech="size / round-trip / write_exact decision tables in TLA+ (HpkeCodec.tla) enumerated by TLC; every case replayed in exact mode",
+   text="4 KEMs x {public, private, encapsulated key} + 4 tag types: size(), from_bytes(to_bytes(v)) = v, write_exact into every buffer length 0..2*size+2 (panic iff length differs), from_bytes of every input length 0..2*size+2 with IncorrectInputLength(expected, given), canonical re-serialisation of accepted encodings.",
+   ref="5 (C12)"),
+ "C13": dict(cat=MC, tech="the specification's result alphabet contains no panic for byte-consuming entry points (asserted by TLC); TLC enumerates entry point x length class, each replayed on an executor built with overflow checks",
+   text="Key/encapsulated-key/tag deserialisation, KDF helpers, DeriveKeyPair, setup (info/psk/psk_id of 0..70000 bytes), seal/open in both forms with arbitrary input of every length class, export with long contexts and lengths beyond 2^16: result must be the specification's value or error, never a panic; setup errors only EncapError/DecapError.",
+   ref="5 (C13)"),
+ "C14": dict(cat=MC, tech="single-shot and allocating forms are DEFINED in TLA+ as compositions of the step operators; conformance of both forms in pattern mode (equal terms must be equal bytes: twin senders with identical RNG scripts, single-shot next to setup+call)",
+   text="single_shot_seal/open (both forms) vs setup + one seal/open with the identical RNG script, twin senders sealing the same message in allocating and detached form; failure paths: small-order keys, wrong recipient key, flipped ciphertext/tag/aad, truncated below a tag.",
+   ref="5 (C14)"),
+ "C15": dict(cat=MC, tech="PskBundleNew decision table in TLA+ enumerated by TLC and replayed; key-schedule wiring of the bundle decided by hypothesis discrimination against mis-wired schedules defined in the spec",
+   text="Constructor: all pairs of lengths {0,1,2,31,32,33,64,1000}^2. Wiring: the observed export of PSK-mode contexts equals the RFC wiring's value and none of the mis-wirings (swap, dropped, duplicated); a match with a mis-wiring is the violation, a match with nothing is inconclusive.",
+   ref="5 (C15)"),
+ "C16": dict(cat=MC, tech="trace validation: the executor's life-cycle event log (drop-ledger deltas, memory scans around drop_in_place) is checked by TLC against the trace specification spec/HpkeLifecycle.tla",
+   text="One trace over (suites x roles) hook-built contexts with known secrets and (suites x 4 modes x both roles) real setups plus every KEM shared secret; accepted iff no buffer is ever dropped dirty, every successful setup drops the temporary AEAD key and the shared secret clean, and what a scan found before a drop is gone after it.",
+   ref="5 (C16)"),
+ "C17": dict(cat="exploration", tech="feature lattice in TLA+ (HpkeFeatures.tla: 64 subsets x guard with the expected API surface, Monotone/SurfaceRule checked by TLC); each subset 'replayed' as builds: crate check, positive/negative surface probes, the crate's tests, scenario digests",
+   text="Per subset: the crate compiles; a probe crate naming every expected item compiles and each absent item does not; the crate's tests pass (kat_test skipped: empty vector file in the snapshot); a scripted scenario per enabled KEM gives the outputs of the full feature set; examples and bench build. Quick: 12 subsets + 2 guard-on; thorough: all 128.",
+   ref="5 (C17)"),
+ "C18": dict(cat=MC, tech="TLA+ spec (MC_Par): TLC checks the frame condition and determinism over all interleavings of three sessions; TLC-generated schedules with thread placements executed on worker threads, then re-run with one concurrent thread per context; compile-time Send/Sync probe",
+   text="Three sessions with equal parameters (other / same RNG script): per-session predictions are those of the session alone (pattern mode: same terms same bytes, different terms different bytes - exposes caches of ephemeral or derived material); contexts are moved between 3 threads; concurrent per-context re-execution and concurrent shared-reference exports must reproduce the sequential results; all public types are Send + Sync.",
+   ref="5 (C18)"),
 }
 NA_REASON = "check not built yet (construction in progress, see DESIGN.md section 12)"
 
